@@ -348,6 +348,82 @@ func TestRoundTrip(t *testing.T) {
 	})
 }
 
+// ---- round trips of material for MANY parties ("for all n"): CBOR changes the representation of a map / array header
+// at 24, 256 and 65536 entries; FROST material is cheap to deal for hundreds of parties.
+
+type manyCase struct {
+	Type string
+	N, T int
+	Who  int
+}
+
+var manyCache = map[string]*proto.Material{}
+
+func manyRun(c manyCase) *pbt.Fail {
+	scheme := proto.SchemeFrost
+	if c.Type == "frost.TaprootConfig" {
+		scheme = proto.SchemeFrostTap
+	}
+	k := fmt.Sprintf("%s/%d/%d", scheme, c.N, c.T)
+	m := manyCache[k]
+	if m == nil {
+		var ids []party.ID
+		for i := 0; i < c.N; i++ {
+			ids = append(ids, party.ID(fmt.Sprintf("w%04d", i)))
+		}
+		var err error
+		if m, err = proto.Deal(scheme, uint64(7000+c.N), ids, c.T); err != nil {
+			return pbt.Failf("harness-error:deal", err.Error())
+		}
+		manyCache[k] = m
+	}
+	id := m.IDs[c.Who%len(m.IDs)]
+	var src, dst interface{}
+	if scheme == proto.SchemeFrost {
+		src, dst = m.Frost[id], frost.EmptyConfig(curve.Secp256k1{})
+	} else {
+		src, dst = m.FrostTap[id], &frost.TaprootConfig{}
+	}
+	b, err := cbor.Marshal(src)
+	if err != nil {
+		return pbt.Failf("encode-error:"+c.Type, err.Error())
+	}
+	panicked, msg := ev.Guard(func() { err = cbor.Unmarshal(b, dst) })
+	if panicked {
+		return pbt.Failf("panic:decode:"+c.Type, msg)
+	}
+	if err != nil {
+		return pbt.Failf("roundtrip-decode-error:"+c.Type, fmt.Sprintf("the library cannot restore what it serialised (n=%d): %v", c.N, err))
+	}
+	if !bytes.Equal(canon(dst), canon(src)) {
+		return pbt.Failf("roundtrip-differs:"+c.Type, fmt.Sprintf("the restored object is not equivalent to the original (n=%d)", c.N))
+	}
+	return nil
+}
+
+var manyProp = pbt.Define(pbt.Prop[manyCase]{Kind: "roundtrip-many", Run: manyRun, Class: func(c manyCase) (string, bool) {
+	return fmt.Sprintf("roundtrip-many|%s|n=%d|t=%d", c.Type, c.N, c.T), true
+}})
+
+func TestRoundTripMany(t *testing.T) {
+	rec := ev.Get()
+	i := 0
+	for _, typ := range []string{"frost.Config", "frost.TaprootConfig"} {
+		for _, n := range []int{5, 23, 24, 25, 26, 40, 257} {
+			for _, th := range []int{1, n - 1} {
+				if n > 40 && (th > 1 || !rec.Thorough()) {
+					continue // dealing for hundreds of parties is quadratic; thorough tier only
+				}
+				i++
+				if !rec.Mine(i) {
+					continue
+				}
+				manyProp.One(t, manyCase{Type: typ, N: n, T: th, Who: i})
+			}
+		}
+	}
+}
+
 // TestWireRoundTrip runs whole sessions in which every message crosses the documented wire codec.
 func TestWireRoundTrip(t *testing.T) {
 	rapid.Check(t, func(rt *rapid.T) {
